@@ -18,9 +18,14 @@ def describe(cfg, key):
     return [cfg.calls[k - 1] for k in engine.calls_of(key)]
 
 
-def signature(pred, cfg, key, outs):
+def signature(pred, cfg, key, outs, pre=None):
     c = dict(cfg.calls[key[-1] - 1]) if len(key) > 1 else {}
     sig = {"pred": pred, "out": outs[-1] if outs else ""}
+    if pre is not None and "nm" in c:
+        # one state feature: was the channel of the call still empty (duration 0) before it?
+        for ch in pre.get("ch", []):
+            if ch["nm"] == c["nm"]:
+                sig["chan_empty_before"] = ch["du"] == 0
     for k, v in c.items():
         if isinstance(v, (str, int, bool)):
             sig[k] = v
@@ -104,9 +109,10 @@ def _run_config(prop, cfg, tag, simulate=None):
             continue
         if any(key[:n] in bad_prefix for n in range(2, len(key) + 1)):
             continue   # judged from the recorded trace instead
+        pre = expect[key[:-1]][2] if len(key) > 1 and key[:-1] in expect else None
         for pred in v:
             if pred.startswith(tuple(preds)):
-                cands.append((pred, key, outs, "model+replay"))
+                cands.append((pred, key, outs, "model+replay", pre))
     drift = 0
     tv_states = 0
     traces_checked = 0
@@ -132,8 +138,10 @@ def _run_config(prop, cfg, tag, simulate=None):
             for pred in r["v"]:
                 if pred.startswith(tuple(preds)) and (pred, key) not in seen:
                     seen.add((pred, key))
-                    outs = tuple(s["out"] for s in traces[r["t"] - 1]["steps"][:r["l"]])
-                    cands.append((pred, key, outs, "trace"))
+                    tr = traces[r["t"] - 1]
+                    outs = tuple(s["out"] for s in tr["steps"][:r["l"]])
+                    pre = tr["steps"][r["l"] - 2]["post"] if r["l"] >= 2 else tr["init"]
+                    cands.append((pred, key, outs, "trace", pre))
     res.tail = res.tail[-20:]
     return {"tag": tag, "tlc": res, "expect": len(expect), "leaves": leaves, "steps": steps,
             "compared": compared, "mismatches": len(mism), "mismatch_samples": mism[:3],
@@ -147,8 +155,8 @@ def decide(prop, preds, runs, tier, t0, level_note=""):
     known = findings.load()
     viol, kf = [], {}
     for cfg, r in runs:
-        for pred, key, outs, src in r["cands"]:
-            sig = signature(pred, cfg, key, outs)
+        for pred, key, outs, src, pre in r["cands"]:
+            sig = signature(pred, cfg, key, outs, pre)
             e = findings.match(prop, sig, known)
             if e is not None:
                 kf.setdefault(e["id"], [e, 0])[1] += 1
